@@ -328,7 +328,7 @@ DateData Date::calc(double t)
 		memset(&date, 0, sizeof(date));
 		return date;
 	}
-	t += 0.0005; // all fields are those of the instant rounded to the millisecond
+	t = floor(floor(t * 1000 + 0.5) / 1000); // all fields are those of the instant rounded to the millisecond
 	date.year = yearFromTime(t);
 	int leap = isLeapYear(t) ? 1 : 0;
 	int yd = (int)dayWithinYear(t, date.year);
@@ -344,14 +344,11 @@ DateData Date::calc(double t)
 	}
 	date.day = yd - month_days[leap][date.month] + 1;
 
-	double dt = ((t / 86400.0) - floor(t / 86400.0));
-	int    h = (int)floor(24 * dt);
-	int    m = (int)floor((24 * dt - h) * 60);
-	int    s = (int)floor(((24 * dt - h) * 60 - m) * 60.0);
-	
-	date.hours = h;
-	date.minutes = m;
-	date.seconds = s;
+	int sod = (int)(t - floor(t / 86400.0) * 86400.0); // t is a whole number of seconds here
+
+	date.hours = sod / 3600;
+	date.minutes = sod % 3600 / 60;
+	date.seconds = sod % 60;
 	date.weekDay = ((int)floor(t / 86400.0) - 3) % 7;
 	if (date.weekDay < 0)
 		date.weekDay += 7;
@@ -371,7 +368,7 @@ String Date::toString(Date::Format fmt, bool utc) const
 		break;
 	case FULL:
 		s = String::f("%04i-%02i-%02iT%02i:%02i:%02i.%03i", d.year, d.month, d.day, d.hours, d.minutes, d.seconds,
-		              int(1000 * fract(_t) + 0.5) % 1000);
+		              int(fmod(floor(_t * 1000 + 0.5), 1000.0) + 1000) % 1000);
 		break;
 	case SHORT:
 		s = String(15, "%04i%02i%02iT%02i%02i%02i", d.year, d.month, d.day, d.hours, d.minutes, d.seconds);
